@@ -447,9 +447,22 @@ def run_case(case, repo=None, registry=None, opts=None):
                     ctx.oblige('%s.no-exception[%s%s]' % (case.case, pr.cls.name, (': ' + str(pr.msg)[:60]) if pr.msg else ''),
                                False, kind='exc')
                 else:
+                    hints = []
                     for item in goals:
-                        nm, g = item if isinstance(item, tuple) else ('clause', item)
-                        ctx.oblige('%s.raises[%s].%s' % (case.case, pr.cls.name, nm), g, kind='exc')
+                        concl = None
+                        if isinstance(item, tuple) and len(item) == 3:
+                            nm, g, concl = item
+                        else:
+                            nm, g = item if isinstance(item, tuple) else ('clause', item)
+                        if nm.startswith('hint:'):
+                            # proof steps on an exceptional path (as in ensures): used by the later clauses once discharged
+                            o = ctx.oblige('%s.%s' % (case.case, nm), g, kind='hint')
+                            o.hints = list(hints)
+                            o.conclusion = concl
+                            hints.append(o)
+                        else:
+                            o = ctx.oblige('%s.raises[%s].%s' % (case.case, pr.cls.name, nm), g, kind='exc')
+                            o.hints = list(hints)
                 res.covers.append((tag, 'raise:' + pr.cls.name, list(ctx.pc)))
         except _LemmaDone:
             pass
